@@ -180,6 +180,19 @@ pub fn family_check(w: &mut World, k: u16, r: &RetSig) {
                 if r.top != f.2 {
                     bad!("yielded something other than the first item produced in this poll (input child {})", f.0);
                 }
+                // C17: an input that has an item whenever it is polled is served within any N consecutive yields
+                let n = w.combs[k as usize].children.len();
+                w.combs[k as usize].yields.push(f.0);
+                let ys = &w.combs[k as usize].yields;
+                if ys.len() >= n {
+                    let window = &ys[ys.len() - n..];
+                    let starved = w.combs[k as usize].children.iter().copied().find(|&c| w.children[c as usize].spec.always && !window.contains(&c));
+                    if let Some(x) = starved {
+                        let slot = w.children[x as usize].slot;
+                        let wv: Vec<u16> = window.iter().map(|&c| w.children[c as usize].slot).collect();
+                        w.violate(17, || format!("Merge#{}: input {} always has an item but none of the last {} yields came from it (origins {:?})", k, slot, n, wv));
+                    }
+                }
                 return;
             }
             let all = w.combs[k as usize].children.iter().all(|&c| w.children[c as usize].finished);
